@@ -106,6 +106,8 @@ func (o outcome) coq() string {
 		return emit.App("OResp", fmt.Sprintf("{| data := %s; complete := %s |}", emit.OptObj(o.data), emit.Bool(o.complete)))
 	case 1:
 		return emit.App("OErr", emit.App("EBackend", emit.Str(o.tag)))
+	case 3:
+		return emit.App("OErr", emit.App("EOther", emit.Str("context canceled")))
 	}
 	return "OEmpty"
 }
@@ -116,6 +118,8 @@ func (o outcome) js() interface{} {
 		return map[string]interface{}{"response": map[string]interface{}{"data": o.data, "complete": o.complete}}
 	case 1:
 		return map[string]interface{}{"error": o.tag}
+	case 3:
+		return "context canceled"
 	}
 	return "nil,nil"
 }
@@ -142,23 +146,26 @@ func deepCopy(v interface{}) interface{} {
 }
 
 type scenario struct {
-	lvl    int
-	ts     []tmpl
-	outs   []outcome
-	ps0    map[string]string
-	unsafe bool // level 0: a non GET backend makes the merger deep-clone the request
-	prop   []string
-	kind   string
-	step   string  // reuse streams: which request of which shared instance this is
-	hb     []hback // HTTP stream: every backend is the real HTTP proxy over a stub executor
+	lvl       int
+	ts        []tmpl
+	outs      []outcome
+	ps0       map[string]string
+	unsafe    bool // level 0: a non GET backend makes the merger deep-clone the request
+	prop      []string
+	kind      string
+	step      string      // reuse streams: which request of which shared instance this is
+	propHoles []propRef   // propagated-params stream: sc.prop as (index, path) pairs, emitted as CSeqP
+	cancel    *cancelSpec // cancellation stream: the caller's context is cancelled while a backend runs
+	hb        []hback     // HTTP stream: every backend is the real HTTP proxy over a stub executor
 }
 
 // ---------- observation ----------
 
 type event struct {
-	call bool
-	i    int
-	path string
+	call   bool
+	i      int
+	path   string
+	params map[string]string // request.Params as the backend saw them
 }
 
 type recorder struct {
@@ -168,20 +175,20 @@ type recorder struct {
 	overlap bool
 }
 
-func (r *recorder) enter(i int, path string) {
+func (r *recorder) enter(i int, path string, params map[string]string) {
 	r.mu.Lock()
 	if r.active > 0 {
 		r.overlap = true
 	}
 	r.active++
-	r.evs = append(r.evs, event{true, i, path})
+	r.evs = append(r.evs, event{true, i, path, copyParams(params)})
 	r.mu.Unlock()
 }
 
 func (r *recorder) exit(i int) {
 	r.mu.Lock()
 	r.active--
-	r.evs = append(r.evs, event{false, i, ""})
+	r.evs = append(r.evs, event{false, i, "", nil})
 	r.mu.Unlock()
 }
 
@@ -234,9 +241,10 @@ func copyParams(m map[string]string) map[string]string {
 // per-request state, carried to the stubs through the context so that one proxy instance
 // can serve many (also concurrent) requests
 type reqState struct {
-	sc   scenario
-	errs []error
-	rec  *recorder
+	sc     scenario
+	errs   []error
+	rec    *recorder
+	cancel context.CancelFunc
 }
 
 type ctxKey struct{}
@@ -259,7 +267,7 @@ func newInstance(sc scenario) (in *instance) {
 	stub := func(i int, produce func(context.Context, *proxy.Request) (*proxy.Response, error)) proxy.Proxy {
 		return func(ctx context.Context, r *proxy.Request) (*proxy.Response, error) {
 			st := stateOf(ctx)
-			st.rec.enter(i, r.Path)
+			st.rec.enter(i, r.Path, r.Params)
 			runtime.Gosched()
 			resp, err := produce(ctx, r)
 			runtime.Gosched()
@@ -282,6 +290,18 @@ func newInstance(sc scenario) (in *instance) {
 			i := i
 			stubs[i] = proxy.NewRequestBuilderMiddleware(ep.Backend[i])(stub(i, func(ctx context.Context, _ *proxy.Request) (*proxy.Response, error) {
 				st := stateOf(ctx)
+				if c := st.sc.cancel; c != nil {
+					// well-behaved backends: return at once when the context is already done
+					if ctx.Err() != nil {
+						return nil, ctx.Err()
+					}
+					if i == c.at {
+						st.cancel() // the caller goes away while this backend is working
+						if c.failInFlight {
+							return nil, ctx.Err()
+						}
+					}
+				}
 				return scripted(st.sc, i, st.errs)
 			}))
 		}
@@ -372,6 +392,7 @@ func (in *instance) call(sc scenario) (obs observation) {
 	}
 	ctx, cancel := context.WithCancel(context.WithValue(context.Background(), ctxKey{}, st))
 	defer cancel()
+	st.cancel = cancel
 	obs.resp, obs.err = in.p(ctx, req)
 	// translate the error values into tags
 	obs.err = tagErr(obs.err, st.errs, sc)
@@ -556,6 +577,20 @@ func buildCase(sc scenario, obs observation) built {
 	}
 	term := shareStrings(emit.App("CSeq", emit.Nat(sc.lvl), emit.List(tsC), emit.StrList(obs.pats), emit.List(outsC),
 		emit.StrMap(sc.ps0), emit.List(evC), emit.Pair(respC, errC)))
+	if sc.propHoles != nil {
+		prC := make([]string, len(sc.propHoles))
+		for i, p := range sc.propHoles {
+			prC[i] = emit.Pair(emit.Nat(p.j), emit.StrList(p.p))
+		}
+		var parC []string
+		for _, e := range obs.evs {
+			if e.call {
+				parC = append(parC, emit.Pair(emit.Nat(e.i), emit.StrMap(e.params)))
+			}
+		}
+		term = shareStrings(emit.App("CSeqP", emit.List(tsC), emit.StrList(obs.pats), emit.List(prC), emit.List(outsC),
+			emit.StrMap(sc.ps0), emit.List(evC), emit.List(parC), emit.Pair(respC, errC)))
+	}
 	var hbJ []interface{}
 	if sc.hb != nil {
 		hbC := make([]string, len(sc.hb))
@@ -594,7 +629,7 @@ func buildCase(sc scenario, obs observation) built {
 	for i, o := range sc.outs {
 		if !(o.kind == 0 && o.complete) {
 			bad = i
-			badKind = []string{"incomplete", "error", "empty"}[o.kind]
+			badKind = []string{"incomplete", "error", "empty", "context-cancelled"}[o.kind]
 			break
 		}
 	}
@@ -650,9 +685,11 @@ func main() {
 		emitCase(w, malformedScenario(r))
 	}
 	w.Meta["http_status_cases"] = httpStream(cfg, r, w)
+	w.Meta["cancel_cases"] = cancelStream(cfg, r, w)
+	w.Meta["propagated_params_cases"] = propStream(cfg, r, w)
 	nSeq, nConc := reuseStreams(cfg, r, w)
 	w.Meta["reuse_sequential_cases"] = nSeq
 	w.Meta["reuse_concurrent_cases"] = nConc
 	w.Meta["exhaustive_scenarios"] = nExh
-	w.Close(fmt.Sprintf("regression corpus; exhaustive: N=2..5 x position 0..N-1 of the first non-successful backend x kind {error, (nil,nil), incomplete payload, incomplete nil-data payload, complete nil-data payload} + all successful, every later backend referencing every earlier response with paths of depth 1..3, x value variants (strings incl. empty/spaces/unicode/url metacharacters, booleans, json.Number literals incl. big ints/decimals/exponents, arrays, null, objects) x 2 levels (merge middleware behind the request builder; config.Init + default factory with HTTP-decoded answers); random: N=2..%d, random documents/templates (existing, missing, partially missing paths, later/own/out-of-range indexes, repeated placeholders, endpoint parameters, overlapping keys, propagated params); malformed: values and parameters with braces, empty path segments, parameters named like destinations; HTTP stream: config.Init + default factory with every backend behind the real HTTP proxy (stub executor returning *http.Response), the varied backend at every position of chains of N=2..3 (thorough 2..5) x 24 statuses over 100..599 (every class, 200/201/204/301/400/401/403/404/429/500/502/503 and neighbours) x {default, return_error_code, return_error_details}, other backends answering 200 with data referenced by later placeholders, plus per-mode reuse sequences 200->404->503->429->201 through one instance; instance reuse: ONE proxy per configuration serving a sequence of 3-6 requests that differ in propagated values / endpoint parameters / outcome kinds (corpus orders + random sequences, both levels), and one proxy hit by 12 goroutines behind a start gate over 8 distinct requests (run in a child process; every distinct (request, observation) pair emitted once). nontrivial = some backend is non-successful or some placeholder is resolved", maxN), true)
+	w.Close(fmt.Sprintf("regression corpus; exhaustive: N=2..5 x position 0..N-1 of the first non-successful backend x kind {error, (nil,nil), incomplete payload, incomplete nil-data payload, complete nil-data payload} + all successful, every later backend referencing every earlier response with paths of depth 1..3, x value variants (strings incl. empty/spaces/unicode/url metacharacters, booleans, json.Number literals incl. big ints/decimals/exponents, arrays, null, objects) x 2 levels (merge middleware behind the request builder; config.Init + default factory with HTTP-decoded answers); random: N=2..%d, random documents/templates (existing, missing, partially missing paths, later/own/out-of-range indexes, repeated placeholders, endpoint parameters, overlapping keys, propagated params); malformed: values and parameters with braces, empty path segments, parameters named like destinations; HTTP stream: config.Init + default factory with every backend behind the real HTTP proxy (stub executor returning *http.Response), the varied backend at every position of chains of N=2..3 (thorough 2..5) x 24 statuses over 100..599 (every class, 200/201/204/301/400/401/403/404/429/500/502/503 and neighbours) x {default, return_error_code, return_error_details}, other backends answering 200 with data referenced by later placeholders, plus per-mode reuse sequences 200->404->503->429->201 through one instance; propagated params: sequential_propagated_params referring to existing / missing / partially missing paths, non-scalars, own / later / out-of-range indexes, with and without the same placeholder in a pattern, the request.Params every entered backend saw compared with the extended model (case kind CSeqP); cancellation: the caller's context is cancelled while backend k of N=2..4 runs (k at every position; the backend either returns its answer, which the merger's select may or may not still deliver, or returns the context error), later backends return at once on a dead context - the resolution of the select is read off the observation and the case is checked like any other; instance reuse: ONE proxy per configuration serving a sequence of 3-6 requests that differ in propagated values / endpoint parameters / outcome kinds (corpus orders + random sequences, both levels), and one proxy hit by 12 goroutines behind a start gate over 8 distinct requests (run in a child process; every distinct (request, observation) pair emitted once). nontrivial = some backend is non-successful or some placeholder is resolved", maxN), true)
 }
